@@ -301,7 +301,14 @@ def sec_loader(rec, patches=None):
             calls.append((i0, i1, dfreq))
             return np.array([0.5 * dfreq]), np.array([0.25])
 
-    LB._utils = FakeUtils()
+    # the correlation kernel is replaced wherever the loaded loader modules can reach it (through the `_utils` module object or a name
+    # imported from it), so the section does not depend on which module makes the call
+    orig = L["acryo._utils"].fourier_shell_correlation
+    L["acryo._utils"].fourier_shell_correlation = FakeUtils.fourier_shell_correlation
+    for m in L.values():
+        for k, v in list(vars(m).items()):
+            if v is orig:
+                setattr(m, k, FakeUtils.fourier_shell_correlation)
     n = 3
     vals = [real(f"v{i}") for i in range(n)]
     mval = real("mask")
